@@ -16,6 +16,10 @@ fn strings() -> Vec<String> {
         "".into(),
         "a".into(),
         "d/e.jbkc".into(),
+        // the same path written differently (equal as paths, different as strings)
+        "d//e.jbkc".into(),
+        "d/./e.jbkc".into(),
+        "d/e.jbkc/".into(),
         "x".repeat(213),
         "é".repeat(106),                 // 212 bytes
         format!("{}a", "é".repeat(106)), // 213 bytes
@@ -309,8 +313,12 @@ fn main() {
     let mut rep = Report::new(
         "locmc",
         "C12",
-        "BFS over rewrite histories: state = vector of recorded locations; events = (every pack listed incl. the directory pack, or an unknown uuid) x 7 strings ('', 'a', 'd/e.jbkc', 213 x 'x', 212-byte and 213-byte multi-byte UTF-8); depth 2 (quick) / 3 (thorough) from each initial state (standalone manifest, manifest inside a OneFile container, inside concat outputs with the manifest last / in the middle, the same with non-zero group bytes patched in, and manifests whose pack-info table lies 90 KB / 210 KB into the pack because of per-pack free data, standalone and concatenated); in every state: block CRCs, file structure, locations (independent and library), manifest check(), the library's whole view of the manifest except locations unchanged, container contents; every transition calls the real tools::set_location on a real file; non-trivial = a transition that changes the state",
+        "BFS over rewrite histories: state = vector of recorded locations; events = (every pack listed incl. the directory pack, or an unknown uuid) x 10 strings ('', 'a', 'd/e.jbkc' and three other spellings of that path ('d//e.jbkc', 'd/./e.jbkc', 'd/e.jbkc/'), 213 x 'x', 212-byte and 213-byte multi-byte UTF-8); depth 2 (quick) / 3 (thorough) from each initial state (standalone manifest, manifest inside a OneFile container, inside concat outputs with the manifest last / in the middle, the same with non-zero group bytes patched in, and manifests whose pack-info table lies 90 KB / 210 KB into the pack because of per-pack free data, standalone and concatenated); in every state: block CRCs, file structure, locations (independent and library), manifest check(), the library's whole view of the manifest except locations unchanged, container contents; every transition calls the real tools::set_location on a real file; non-trivial = a transition that changes the state",
     );
+    // one child process per group of initial states (--shards N)
+    if jbkmc::shard::run_children(&args, &mut rep) {
+        rep.finish(&args);
+    }
     let dir = jbkmc::scratch_dir("loc");
     let t = args.thorough();
     let depth = if t { 3 } else { 2 };
@@ -321,6 +329,7 @@ fn main() {
             rep.finish(&args);
         }
     };
+    let inits = jbkmc::shard::select(&args, inits);
     let strs = strings();
     let replay: Option<J> = args.replay.as_ref().map(|p| {
         let j: J = serde_json::from_str(&std::fs::read_to_string(p).expect("replay")).unwrap();
